@@ -29,6 +29,25 @@ def one_case(ctx, job, variant, lines, k, via_json):
     elif [l.hash for l in full] != [l.hash for l in resumed]:
         finding = {"job": job, "variant": variant, "plan": lines, "cut": k, "via_json": via_json,
                    "what": "hashes differ although the logs are equal"}
+    if finding is None and not via_json:
+        # the recorded logs are a VALUE: resuming from the same in-memory log objects a second time (after the first resumed run has
+        # executed its commands) must again reproduce the uninterrupted run
+        e0 = simenv.make_engine(job, variant)
+        for c in cmds[:k]:
+            e0.exec(c)
+        held = list(e0.operation_logs())
+        for attempt in (1, 2):
+            r = simenv.make_engine(job, variant)
+            r.reload(list(held))
+            for c in cmds[k:]:
+                r.exec(c)
+            got = ec.norm_logs(list(r.operation_logs()))
+            if got != a or [l.hash for l in r.operation_logs()] != [l.hash for l in full]:
+                d = ec.first_log_diff(a, got)
+                finding = {"job": job, "variant": variant, "plan": lines, "cut": k, "via_json": False,
+                           "what": "resuming a %s time from the same in-memory logs differs from the uninterrupted run" % ("first", "second")[attempt - 1],
+                           "first_differing_log": d[0] if d else None, "differing_fields": d[1] if d else "hashes"}
+                break
     return txt, finding, {"plays": rec.plays, "conflicts": rec.conflicts}
 
 
